@@ -199,7 +199,13 @@ def run_case(case, ctx):
             try:
                 engine_results[e2] = {frozenset(x) for x in create_optimizer(es2).minimal_correction_subsets(wcnf.copy(), ignore=list(ignore))}
             except BaseException as e:  # noqa: BLE001
-                out.append(obs(f"mcs|{bridge.exc_symptom(e)}", {"message": str(e)[:200], "scenario": sc, "engine": e2}))
+                import os as _os
+                if _os.sep + "pysat" + _os.sep in bridge.exc_origin(e):
+                    # raised inside the third-party engine wrapper under this one engine: the engine is
+                    # not usable on this instance (recorded, not judged; the main engine is judged below)
+                    ctx.stratum(f"third-party-engine-failure:{e2}")
+                else:
+                    out.append(obs(f"mcs|{bridge.exc_symptom(e)}", {"message": str(e)[:200], "scenario": sc, "engine": e2}))
         ctx.ev(1)
         try:
             if not ignore:
